@@ -549,7 +549,9 @@ func constIntText(t string) (int64, bool) {
 
 // impliedOrder: an exact (glob-free) le / lt / ne pattern also holds when it
 // follows from an equality or a stronger order fact of the set:
-//   le(A,B) ⇐ eq(A,B) | lt(A,B);  ne(A,B) ⇐ lt(A,B) | lt(B,A);
+//
+//	le(A,B) ⇐ eq(A,B) | lt(A,B);  ne(A,B) ⇐ lt(A,B) | lt(B,A);
+//
 // and, when one side is an integer constant, from a fact that bounds the other
 // side by another constant (eq(1,X) ⇒ le(X,1), lt(0,X), ne(0,X), le(X,5) …).
 // Branch conditions that a rewrite of an if-chain into a switch (or an early
